@@ -1,5 +1,6 @@
 /- T1 facts about sync.go (C05, C12): the mechanisms that make a lost wake-up impossible. -/
 import BB.Gen.Skel
+import BB.Model.WaitCond
 
 namespace BB.Conform.WaitCond
 open BB.Skel BB.Gen.Skel
@@ -31,5 +32,26 @@ theorem derived_ctx_cancelled_on_return :
     dominates g_WaitCond (is K.withcancel S.ctx) (is K.go S.WaitCond_0) = true ∧
     beforeExit g_WaitCond (is K.withcancel S.ctx) (is K.cancelcall S.cancel) = true ∧
     guardTrue g_WaitCond S.c_cancel_eq_nil (is K.go S.WaitCond_0) = true := by decide
+
+/-- the configuration of the WaitCond model, computed from the regenerated skeletons: the theorems of
+    BB/Props/C05.lean are about `sys good`, and this is the instance the code provides -/
+def genCfg : BB.WaitCond.Cfg :=
+  { watcherLocks :=
+      condTrueThrough g_WaitCond_0 S.c_l_ne_nil (is K.lock S.l) (is K.broadcast S.cond) &&
+      dominates g_WaitCond_0 (is K.cond S.c_l_ne_nil) (is K.broadcast S.cond) &&
+      dominates g_WaitCond (is K.cond S.c_cond_L_eq_nil) (is K.go S.WaitCond_0) &&
+      noneBetween g_WaitCond_0 (is K.lock S.l) (is K.broadcast S.cond) (is K.unlock S.l)
+    mutatorBroadcasts :=
+      -- every critical section of the Buffer that can make a waiting predicate true broadcasts before it unlocks
+      beforeExit g_Buffer_Put (is K.write S.Buffer_buffer) (is K.broadcast S.Buffer_cond) &&
+      beforeExit g_Buffer_commit (is K.write S.Buffer_consumers) (is K.broadcast S.Buffer_cond) &&
+      beforeExit g_Buffer_delete (is K.write S.Buffer_consumers) (is K.broadcast S.Buffer_cond) &&
+      beforeExit g_Buffer_NewConsumer (is K.write S.Buffer_consumers) (is K.broadcast S.Buffer_cond) &&
+      beforeExit g_Buffer_cleanupLogic (is K.write S.Buffer_offset) (is K.broadcast S.Buffer_cond)
+    ctxCheckedEveryIteration :=
+      condTrueThrough g_WaitCond S.c_ctx_ne_nil (is K.ctxerr S.ctx) (is K.callvar S.fn) &&
+      between g_WaitCond (is K.condwait S.cond) (is K.callvar S.fn) (is K.cond S.c_ctx_ne_nil) }
+
+theorem gen_cfg_is_good : genCfg = BB.WaitCond.good := by decide
 
 end BB.Conform.WaitCond
